@@ -1154,3 +1154,40 @@ _AUTOGEN_COMMON = dict(shrink=False, prepare=_prepare_autogen, replay_binary=_au
                        nontrivial=lambda p, i, m: "(st " in p.split("|")[2])
 PROPS["C08"]["suites"].append(("autogen-order", dict(cmp=cmp_c08_autogen, what="generated struct families (incl. 13-40 field structs): field order of AutogenerateStructMapEntryUsingTags in the three sort modes vs Autogen.explore", **_AUTOGEN_COMMON)))
 PROPS["C01"]["suites"].append(("autogen-roundtrip", dict(cmp=cmp_c01_autogen, what="generated struct families: values with nil / non-nil / mixed embedded pointers marshalled and unmarshalled (CBOR, JSON) through autogenerated struct maps, field-wise oracle", **_AUTOGEN_COMMON)))
+
+
+# ---------------------------------------------------------------------------
+# conc (C18): impl = "<sequential results> | conc=1" or "... | conc=0 <first difference>"; a data race kills
+# the harness (built with -race) with exit code 66 on the case that raced.
+# ---------------------------------------------------------------------------
+
+def cmp_c18(payload, impl, model):
+    if impl.startswith("panic"):
+        return viol("a call panicked")
+    if impl.startswith("RACE"):
+        return viol("the Go race detector reported a data race while goroutines with their own instances shared this atlas and these inputs: " + impl[5:1500])
+    outs, _, conc = impl.partition(" | conc=")
+    if not conc.startswith("1"):
+        return viol("a goroutine obtained a result different from sequential execution: " + conc[2:400])
+    if outs != model:
+        return viol("sequential results differ from the model: impl %s model %s" % (outs[:150], model[:150]))
+    return None
+
+
+def _prepare_race(seed, tier):
+    import common
+    return common.build_race_harness()
+
+
+PROPS["C18"] = dict(
+    coq="Properties_C18",
+    level_text="Proved in Coq on the models: every marshal / unmarshal / clone call is a function of (atlas, type, value or input) alone — the object-layer models take the atlas as a read-only argument and keep no state between calls — so any interleaving of calls by goroutines with their own instances yields, per call, the sequential result (Conc.v: results of an arbitrary interleaving of per-goroutine call sequences equal the per-call results). The premise that the real code has no shared mutable state is what the model cannot show; it is checked on the code: SharedState.v is regenerated on every run from a go/ast scan of /repo (package-level variables of the library and every assignment / address-taking of them outside init), with the lemma that none is written after initialisation, and the race-detector run below.",
+    level_note="partial: the Go memory model, the scheduler and the race detector are not modelled; the theorem covers interference through results, the run covers data races on the schedules the Go scheduler produced (N = 4 x cores goroutines, GOMAXPROCS varied, -race). Trusted as in trusted_base plus the race detector.",
+    rule="workload (shared atlas with all entry kinds, 2-5 items, documents with ignored keys) x 64 goroutines x 3 rounds x all jobs in random order; non-trivial = at least 3 successful marshals; distinct by payload",
+    trusted_base=_OBJ_TB + ["the Go race detector (-race) and scheduler", "lib/sharedscan.go: go/ast scan producing coq/gen/SharedState.v"],
+    assumptions=["source values are not mutated while shared (the harness only reads them)", "user transform functions are themselves race-free"],
+    technique="machine-checked proof in Coq 8.16 about an executable Gallina model (call results independent of interleaving) + regenerated shared-state table + differential correspondence run under the Go race detector",
+    suites=[("conc", dict(cmp=cmp_c18, shrink=False, prepare=_prepare_race, replay_binary=lambda payload: _prepare_race(0, "")[0], race=True, timeout=7200,
+                          nontrivial=lambda p, i, m: m.count("m:") >= 3,
+                          what="4 x cores goroutines with own Marshaller/Cloner instances and the package-level helpers, sharing one atlas and read-only inputs, all jobs in random order for 3 rounds, under -race; every result compared with the sequential run and the model"))],
+)
